@@ -939,9 +939,13 @@ class RetrySender(object):
         self.pkt_type = pkt_type
         self.payload = payload
         self.callback = callback
+        self.done = False
 
     def __call__(self, success):
         # keep re-trying until it succeeds
+        if self.done:
+            return
+
         if not success:
 
             msg = PendingMessage(self.seq_message, self.pkt_type,
@@ -949,8 +953,10 @@ class RetrySender(object):
 
             self.conn.outgoing_messages.append(msg)
 
-        elif self.callback:
-            self.callback(True)
+        else:
+            self.done = True
+            if self.callback:
+                self.callback(True)
 
 class Bytes(bytes):
     seq = SeqNum()
